@@ -292,6 +292,8 @@ pub enum Op {
     /// skipped when fewer checkpoints have been taken
     Restore { j: usize },
     Advance { d: u64 },
+    /// `cleanup_expired()`: drops entries whose TTL has run out; no view may change
+    Cleanup,
 }
 
 impl Op {
@@ -304,6 +306,7 @@ impl Op {
             Op::Checkpoint => "checkpoint",
             Op::Restore { .. } => "restore",
             Op::Advance { .. } => "advance",
+            Op::Cleanup => "cleanup_expired",
         }
     }
     pub fn to_json(&self) -> Json {
@@ -315,6 +318,7 @@ impl Op {
             Op::Checkpoint => json!({"op": "checkpoint"}),
             Op::Restore { j } => json!({"op": "restore", "checkpoint": j}),
             Op::Advance { d } => json!({"op": "advance", "ms": d}),
+            Op::Cleanup => json!({"op": "cleanup_expired"}),
         }
     }
     pub fn from_json(j: &Json) -> Option<Op> {
@@ -328,6 +332,7 @@ impl Op {
             "checkpoint" => Op::Checkpoint,
             "restore" => Op::Restore { j: j["checkpoint"].as_u64()? as usize },
             "advance" => Op::Advance { d: j["ms"].as_u64()? },
+            "cleanup_expired" => Op::Cleanup,
             _ => return None,
         })
     }
@@ -584,6 +589,7 @@ pub fn simulate(h: &Hist) -> Option<Vec<Snap>> {
             }
             Op::Restore { .. } => return None,
             Op::Advance { d } => now += d,
+            Op::Cleanup => {}
         }
     }
     Some(out)
@@ -812,6 +818,7 @@ fn run_once(h: &Hist, dir: &Path, obs: &mut HObs) -> Option<Failure> {
             Op::Checkpoint => "op_checkpoint",
             Op::Restore { .. } => "op_restore",
             Op::Advance { .. } => "op_advance",
+            Op::Cleanup => "op_cleanup_expired",
         });
         if !virt {
             now = real_ms();
@@ -866,6 +873,24 @@ fn run_once(h: &Hist, dir: &Path, obs: &mut HObs) -> Option<Failure> {
                 } else if *d > 0 {
                     now = wait_real_ms_after(real_ms());
                 }
+            }
+            Op::Cleanup => {
+                // whatever it drops was invisible already (the step comparison below sees the rest);
+                // it cannot drop more entries than there are keys with a TTL that may have run out
+                let n = store.cleanup_expired();
+                let may_be_expired = m.ghosts.len() + m.live.values().filter(|e| e.lo.is_some()).count();
+                if n > may_be_expired {
+                    return Some(Failure {
+                        clause: "views-match-model".into(),
+                        cause: "cleanup_expired-dropped-unexpired-entries".into(),
+                        detail: format!("op #{} cleanup_expired() reported {} dropped entries, at most {} entries can have expired", i, n, may_be_expired),
+                    });
+                }
+                if n > 0 {
+                    obs.c("cleanup_expired_calls_that_dropped_entries");
+                }
+                m.sweep(now);
+                m.ghosts.clear();
             }
             Op::Checkpoint => {
                 if h.distinct_ms {
@@ -1244,7 +1269,7 @@ pub fn shrink_hist(h: &Hist, clause: &str, dir: &Path) -> Hist {
 
 pub const EXH_TTL: u64 = 3;
 
-/// The 21-letter alphabet of the exhaustive enumeration.
+/// The 22-letter alphabet of the exhaustive enumeration.
 pub fn exh_alphabet() -> Vec<Op> {
     let i = Value::Integer;
     let mut a = vec![
@@ -1269,6 +1294,7 @@ pub fn exh_alphabet() -> Vec<Op> {
     for d in [1, EXH_TTL - 1, EXH_TTL, EXH_TTL + 1] {
         a.push(Op::Advance { d });
     }
+    a.push(Op::Cleanup);
     a
 }
 
@@ -1368,6 +1394,8 @@ pub fn gen_random(rng: &mut Rng) -> Hist {
             } else {
                 Op::Restore { j: rng.below(ncp) }
             }
+        } else if r < 88 {
+            Op::Cleanup
         } else {
             let d = if let Some(t) = default_ttl {
                 if rng.chance(1, 3) {
